@@ -611,7 +611,11 @@ class Gen:
         # objects with two tensor indices (quadrics; lines and cached segment lines in 3D) are acted on by the
         # inverse twice: the float discrepancy of a round trip grows like eps*cond^3 (a sphere under a chain with
         # cond 6.5e3 left a projective defect of 4.9e-10 on the clean tree), so they get a tighter bound
-        if self.X[x]["kind"] == "quadric" or (self.cfg["main_dim"] == 3 and self.X[x]["kind"] in ("line", "segment")):
+        # ... and so do polytopes: their cached supporting line / plane is the JOIN of image vertices, a bi-/trilinear
+        # expression whose relative error is the vertices' error times the conditioning of the vertex tuple (soak:
+        # 3D polygon collection, cond 3.0e3, the two sides' planes differed by a projective defect of 2.6e-11)
+        if self.X[x]["kind"] in ("quadric", "segment", "polygon", "polyhedron") or \
+                (self.cfg["main_dim"] == 3 and self.X[x]["kind"] == "line"):
             return bool(np.all(np.linalg.cond(m) <= 300.0))
         return True
 
